@@ -45,5 +45,16 @@ CLAIMS = {
         "technique": "Coq proof (regex language of runs+optional tail) + generated data obligations + extracted-model correspondence",
         "design_ref": "DESIGN.md §4 C04",
     },
+    "C05": {
+        "text": "Theorems C05_iban_total / C05_bic_total (no text makes the validating constructors raise outside the library "
+                "family: the only partial operation, numerify, is guarded because the character and format steps precede the "
+                "checksum step and admit only 0-9A-Z), C05_*_is_valid (is_valid never raises and is true iff validated "
+                "construction succeeds), C05_iban_named / C05_bic_named (a raised class names a defect present per the independent "
+                "Spec/Defects.v). Obligations on the generated step list (steps_guarded), regex classes (exact ASCII classes) "
+                "re-discharged every run. Found and fixed: Unicode \\d (d369466). National validation's totality is C06/C17.",
+        "note": COMMON_NOTE,
+        "technique": "Coq proof (step-guard invariant over the generated step list, exact regex classes) + data obligations + spec-oracle and correspondence streams",
+        "design_ref": "DESIGN.md §4 C05",
+    },
 }
 NOT_APPLICABLE = {}
